@@ -63,13 +63,47 @@ class Slots:
                 idx = self.thread_task_param(eb)
                 if idx is not None and idx < len(c['args']) and c['args'][idx][0] == 'closure':
                     clo = c['args'][idx][1]
-            fns = []
-            if clo and clo in F.bodies:
-                for _, t in F.bodies[clo].calls():
-                    cal = callee_of(t)
-                    if t.get('local') and cal in F.bodies:
-                        fns.append(cal)
-            fns = self.expand_dispatchers(ctx, fns)
+            def task_fns(clo_):
+                fns_ = []
+                if clo_ and clo_ in F.bodies:
+                    for _, t in F.bodies[clo_].calls():
+                        cal = callee_of(t)
+                        if t.get('local') and cal in F.bodies:
+                            fns_.append(cal)
+                return self.expand_dispatchers(ctx, fns_)
+            fns = task_fns(clo)
+            if clo is None and c and idx is not None and idx < len(c['args']) and bn not in self.runner_entries:
+                # a wrapper around the runner (`fn run_and_append(params, iter, thread_task, output) { let v = Runner::run_map(.., thread_task); .. }`):
+                # the task closures are the literals its callers hand to that parameter
+                a = c['args'][idx]
+                while a is not None and a[0] in ('ref', 'mut'):
+                    a = a[1]
+                hb = F.bodies[bn]
+                pnames = [hb.local_name(l) for l in hb.arg_locals()]
+                if a is not None and a[0] == 'param' and a[1] in pnames and not hb.is_closure():
+                    pi = pnames.index(a[1])
+                    lifted = []
+                    for cb2 in F.bodies.values():
+                        for cbb2, t2 in cb2.calls():
+                            if callee_of(t2) != bn:
+                                continue
+                            c2 = ctx.run(cb2.name).calls.get(cbb2)
+                            a2 = c2['args'][pi] if c2 is not None and pi < len(c2['args']) else None
+                            while a2 is not None and a2[0] in ('ref', 'mut'):
+                                a2 = a2[1]
+                            if a2 is not None and a2[0] == 'closure' and a2[1] in F.bodies:
+                                f2 = task_fns(a2[1])
+                                self.task_of_site[(cb2.name, cbb2)] = (a2[1], f2)
+                                lifted.extend(f2)
+                            else:
+                                lifted = None
+                                break
+                        if lifted is None:
+                            break
+                    if lifted:
+                        clo = '<wrapper>'
+                        fns = list(dict.fromkeys(lifted))
+                        self.runner_wrappers = getattr(self, 'runner_wrappers', []) + [bn]
             self.task_of_site[(bn, bb)] = (clo, fns)
             for f in fns:
                 if f not in self.tasks:
